@@ -4,10 +4,10 @@ import json, os
 V = os.path.dirname(os.path.dirname(os.path.abspath(__file__)))
 
 NA = {
-    'C01': "byte-exact round trip over all lengths x ten configuration dimensions is a runtime-value fact (cipher/compressor/buffer arithmetic); no structural necessary condition beyond what C17/C03/C09 already decide; static analysis cannot bound it (DESIGN §5 C01)",
 }
 
 CLAIMS = {
+    'C01': ("R-table/R-sib/R-dom (narrow): layer twins of builder and reader agree by construction (mode / compression / chunk-size tables, length partitions, single derivations, R-len of message packets, stage machines cannot end early); byte-exact round trip over all lengths not decided", "§5 C01 / §11.10"),
     'C02': ("R-dom/R-sib/R-table over MIR: every accept path of every verifier evaluates prefix check, type binding, issuer match, version alignment, back-signature, then the primitive", "§5 C02"),
     'C03': ("R-dom/R-who over MIR: a clean end-of-stream is reachable only through the MDC comparison / final AEAD tag; check-first releases nothing before Done", "§5 C03"),
     'C04': ("R-panic/R-rec over MIR: every panic-capable site on hostile paths is tactic-discharged or in the reviewed baseline; focus set must be discharged", "§5 C04"),
